@@ -271,6 +271,25 @@ func init() {
 	})
 }
 
+func init() {
+	register(&Property{
+		ID:          "C11",
+		Patterns:    append([]string{pkgSchema, pkgOpl}, enginePatterns...),
+		HarnessDirs: []string{"internal/check/zzverif"},
+		ReplayTags:  "sqlite",
+		Assumptions: []string{"program skeleton User/Group/Doc with choices at every reference site (type of Doc.parents, Group.members, traverse/includes/permits targets, optional relation x on User and Group)", "store conforms to the declared types (subject ids untyped; subject sets must match a declared type)", "storage = MemStore"},
+		Outside:     []string{"SubjectSet chains deeper than 2", "programs outside the skeleton"},
+		Runs: func(tier string) []Run {
+			r := engineRun("typecheck-vs-runtime", "HarnessC11", map[string]int64{"K": pick(tier, 1, 2)})
+			r.Reach = []string{"c11.accepted", "c11.undeclared-reference"}
+			return []Run{r}
+		},
+		Bounds: func(tier string) map[string]interface{} {
+			return map[string]interface{}{"programs": "2 x 2 x 2 x 5 x 3 x (4 bodies) variants of the skeleton", "rows": pick(tier, 1, 2), "objects": 2, "modes": "default and strict"}
+		},
+	})
+}
+
 func itoa(n int64) string {
 	s := ""
 	if n == 0 {
